@@ -30,6 +30,10 @@ theorem C04_gen_consts :
     written against (textual comparison by `translate/x_bolt3.py`, fail closed: a change there removes this constant). -/
 theorem C04_gen_skeletons : Gen.Bolt3.decisionSkeletonsAsModelled = true := by decide
 
+/-- the persisted channel entry and the restore path have the shape `persistChannel / restoreChannel` model
+    (`C04_restart_same_sig`, `C04_restart_amount_matters` are about that shape) -/
+theorem C04_gen_persist : Gen.Bolt3.persistRestoreAsModelled = true := by decide
+
 /-- `Htlc.le` — the order `Info2.mk'` (`CommitmentInfo2::new`) sorts the HTLC lists by — is the lexicographic order of
     `impl Ord for HTLCInfo2` over the fields the source compares, in the source's order. -/
 theorem C04_gen_htlc_order (a b : Htlc) : Htlc.le a b = lexLe Gen.Bolt3.htlcInfo2Order a b := by
